@@ -91,8 +91,6 @@ def main():
         except Exception:
             pass
     target = llvm.Target.from_default_triple()
-    cpu = llvm.get_host_cpu_name()
-    feats = llvm.get_host_cpu_features().flatten()
     keep = []
     out = open(outp, "a")
     jf = open(jpath, "w")
@@ -152,7 +150,7 @@ def main():
                 out.flush()
                 keep.append(mod)
                 continue
-            tm = target.create_target_machine(cpu=cpu, features=feats)
+            tm = target.create_target_machine()  # generic x86-64: the most exercised code generator paths
             ee = llvm.create_mcjit_compiler(mod, tm)
             keep.append((ee, tm, mod))
             ee.finalize_object()
